@@ -138,8 +138,8 @@ struct Executor {
         if (!materialisable(f) || fc.family < 0) return fc;
         Domain d = in_domain(f.codec, f.m, f.k, f.r, f.E, f.N1, f.pseed);
         if (f.codec == C_2D) {
-            uint32_t a, b;
-            if (f.k > 16 || f.k + f.r > 24 || !twod_factor(f.k, f.r, a, b)) return fc;
+            // whatever (k, n-k) the codec accepts in the property's range is probed, product shape or not
+            if (f.k > 16 || f.k + f.r > 24) return fc;
         } else if (!d.inside) return fc;
         gen_payload(fc);
         if (f.codec == C_LDPC) fc.code = h5170(f.k, f.r, f.N1, f.pseed);
@@ -528,6 +528,18 @@ struct Executor {
         count(std::string("sessions_created:") + cn(sc));
     }
 
+    // codec 2 only: the field size may be preset through the control-parameter interface before of_set_fec_parameters
+    // (eperftool and tests/code_params_test.c do this); the configuration call still decides
+    void do_ctrlset(SesCtx &sc, const Op &op) {
+        if (!sc.created || sc.setp_done || sc.released || sc.s->codec != C_RS2M || op.esi < 0) return;
+        status(&sc, "ctrlset", false);
+        int st = ad_set_field_size(sc.h, (uint32_t)op.esi, sc.s->id);
+        status_done(); res.lib_calls++;
+        Hash64 x; x.u64((uint64_t)op.esi);
+        trace_step(sc, "CTRLSET", op.esi, st, 0, x);
+        count(op.esi == sc.s->m ? "field_size_preset_same" : "field_size_preset_other");
+    }
+
     void do_setp(SesCtx &sc) {
         if (!sc.created || sc.setp_done || sc.released) return;
         const Flow &f = *sc.fc->f;
@@ -549,6 +561,7 @@ struct Executor {
         }
         if (corrupt) count("oti_corrupted:" + f.oti);
         trace_step(sc, "SETP", -1, st, 0, x);
+        if (st == 0 && !d.inside && sc.s->codec == C_LDPC && sc.s->role == R_ENC) nullsym_selfcheck(sc);
         if (st != 0 || !d.inside || !sc.fc->ok) { if (st == 0 && d.inside) count("accepted_not_materialised"); return; }   // unusable from here: only RELEASE applies
         sc.configured = true;
         sc.k = f.k; sc.r = f.r; sc.n = f.k + f.r; sc.E = f.E;
@@ -578,6 +591,36 @@ struct Executor {
             if (sc.n > 1024 / 4) count("ldpc_large_matrix");
         }
         if (sc.s->role == R_DEC) observe_decoder(sc, "SETP+", -1, 0, false);
+    }
+
+    // C15 speaks about every *configured* session. An LDPC encoder that was accepted although its parameters are outside
+    // the advertised domain (that acceptance itself is C09's business) has no RFC 5170 model to be compared with, but the
+    // claim can still be tested against the symbol the encoder really produces for this run's payload.
+    void nullsym_selfcheck(SesCtx &sc) {
+        const Flow &f = *sc.fc->f;
+        if (!materialisable(f) || f.k > 4096 || f.r > 4096 || f.r == 0 || f.k == 0) return;
+        int ln = 0;
+        status(&sc, "ctrl", true);
+        int cst = ad_ctrl_lastnull(sc.h, &ln, sc.s->id);
+        status_done(); res.lib_calls++;
+        if (cst != 0 || !ln) return;
+        count("lastnull_claimed_outside_domain");
+        FlowCtx tmp; tmp.f = &f; gen_payload(tmp);
+        uint32_t n = f.k + f.r;
+        std::vector<AppBuf> bufs(n);
+        void **tab = (void **)malloc(sizeof(void *) * n);
+        for (uint32_t i = 0; i < n; i++) { bufs[i] = app_alloc(f.E, 0, i < f.k ? tmp.src[i].data() : nullptr); tab[i] = bufs[i].p; }
+        bool ok = true;
+        status(&sc, "build", true);
+        for (uint32_t j = f.k; j < n && ok; j++) { ok = ad_build(sc.h, tab, j, sc.s->id) == 0; res.lib_calls++; }
+        status_done();
+        if (ok) {
+            bool zero = true;
+            for (uint32_t b = 0; b < f.E; b++) if (bufs[n - 1].p[b]) { zero = false; break; }
+            if (!zero && f.payload != "zero") viol({"C15"}, "nullsym", "claimed-null-but-last-repair-nonzero", "configuration outside the advertised domain but accepted: k=" + std::to_string(f.k) + " r=" + std::to_string(f.r) + " N1=" + std::to_string(f.N1), &sc);
+        }
+        for (auto &b : bufs) app_free(b);
+        free(tab);
     }
 
     void check_lastnull_flag(SesCtx &sc, int ln) {
@@ -986,6 +1029,7 @@ struct Executor {
             if (op.op == "CREATE") do_create(*sc);
             else if (op.op == "SETP") do_setp(*sc);
             else if (op.op == "SETCB") do_setcb(*sc);
+            else if (op.op == "CTRLSET") do_ctrlset(*sc, op);
             else if (op.op == "BUILD") do_build(*sc, op);
             else if (op.op == "CTRL") do_ctrl(*sc);
             else if (op.op == "DELIVER") do_deliver(*sc, op);
